@@ -1,7 +1,7 @@
 SPECIFICATION MCSpec
-CONSTANT L = 6
+CONSTANT L = 5
 CONSTANT Kind = "LO"
-CONSTANT LOBound = "repaired"
+CONSTANT LOBound = "asis"
 VIEW View
 INVARIANT Ok
 INVARIANT Inv
